@@ -92,7 +92,7 @@ func checkC02(c *Ctx) {
 		n    int
 		port bool
 		m    int
-	}{{0, false, 0}, {3, true, 5}, {15, true, 17}, {0, true, 40}}
+	}{{0, false, 0}, {3, true, 5}, {15, true, 17}, {0, true, 40}, {0, true, 242}}
 	for _, up := range []bool{true, false} {
 		for _, ver := range []int64{0, 1} {
 			for _, sh := range shapes {
